@@ -46,6 +46,15 @@ func Group(services *fun.Iterator[*Service]) *Service {
 			}
 			wg.Wait(ctx)
 			ec.Add(waiters.Close())
+
+			// members run with this context: stay alive until
+			// each of them has returned (which they do on
+			// their own or when the context ends), otherwise
+			// returning here cancels them immediately.
+			members := waiters.Iterator()
+			for members.Next(context.Background()) {
+				_ = members.Value()()
+			}
 			return nil
 		},
 		Cleanup: func() error {
